@@ -176,6 +176,14 @@ func (g *G) datetime() (time.Time, M) {
 	if g.r.Intn(10) == 0 {
 		t = time.Date(y, time.Month(m), d, 23, 59, 59, 999999999, locs[g.r.Intn(len(locs))])
 	}
+	// the first instant of the range: the zero value of time.Time, as it is and seen from a Location east of Greenwich
+	// (west of it the civil year is 0: not in the domain)
+	if g.r.Intn(12) == 0 {
+		t = time.Time{}
+		if z := t.In(locs[g.r.Intn(len(locs))]); z.Year() == 1 && g.r.Intn(2) == 0 {
+			t = z
+		}
+	}
 	return t, projTime(t)
 }
 
